@@ -143,8 +143,8 @@ spec fn all_from_table<R: VxReadSeek>(sh: MDBShardInfo, data: Seq<u8>, h: Merkle
 }
 proof fn lemma_candidates<R: VxReadSeek>(sh: MDBShardInfo, data: Seq<u8>, h: MerkleHash, cnt: int, dest: Seq<u32>)
     requires
-        cnt == fl_count(sh, data, h),
-        stored_ok::<R, u32, VxReadU32>(VxReadU32, data, fl_rs(sh), fl_psz(), fl_n(sh), spec_truncate(h), cnt, dest),
+        /*@C09*/ cnt == fl_count(sh, data, h),
+        /*@C09*/ stored_ok::<R, u32, VxReadU32>(VxReadU32, data, fl_rs(sh), fl_psz(), fl_n(sh), spec_truncate(h), cnt, dest),
     ensures all_listed::<R>(sh, data, h, cnt, dest), all_from_table::<R>(sh, data, h, cnt, dest),
 {
     let wit = choose|wit: Seq<int>| #[trigger] written_ok::<R, u32, VxReadU32>(VxReadU32, data, fl_rs(sh), fl_psz(), fl_n(sh), spec_truncate(h), wit, cnt, dest);
@@ -165,8 +165,8 @@ impl MDBShardInfo {
     #[verifier::external_body]
     fn read_file_info<R: VxReadSeek>(&self, reader: &mut R, file_entry_index: u32) -> (r: Result<MDBFileInfo>)
         ensures
-            final(reader).data() == old(reader).data(),
-            old(reader).failed() ==> final(reader).failed(),
+            /*@AUX*/ final(reader).data() == old(reader).data(),
+            /*@AUX*/ old(reader).failed() ==> final(reader).failed(),
             r matches Ok(info) ==> info == spec_file_info(*self, old(reader).data(), file_entry_index),
             r is Err ==> final(reader).failed() || !spec_file_info_valid(*self, old(reader).data(), file_entry_index),
     { unimplemented!() }
@@ -177,7 +177,7 @@ impl MDBShardInfo {
         requires
             search_pre::<u32>(old(reader).data(), self.metadata.file_lookup_offset, self.metadata.file_lookup_num_entry),
         ensures
-            final(reader).data() == old(reader).data(),
+            /*@AUX*/ final(reader).data() == old(reader).data(),
             // Ok(cnt): fewer than 8 candidates, cnt is the exact number of lookup entries under the truncated hash, and
             // dest_indices[..cnt] holds the entry indices of all of them (distinct entries)
             /*@C09*/ ret matches Ok(cnt) ==> cnt < 8 && cnt == fl_count(*self, old(reader).data(), *file_hash)
@@ -187,7 +187,7 @@ impl MDBShardInfo {
             /*@C09*/ fl_count(*self, old(reader).data(), *file_hash) >= 8 ==> ret is Err,
             // and an error only then or after a failed reader operation
             /*@C09*/ ret is Err ==> final(reader).failed() || fl_count(*self, old(reader).data(), *file_hash) >= 8,
-            old(reader).failed() ==> final(reader).failed(),
+            /*@AUX*/ old(reader).failed() ==> final(reader).failed(),
 //@ end
 
 //@ extract mdb_shard/src/shard_format.rs in `impl MDBShardInfo` fn get_cas_info_index_by_hash
@@ -196,7 +196,7 @@ impl MDBShardInfo {
         requires
             search_pre::<u32>(old(reader).data(), self.metadata.cas_lookup_offset, self.metadata.cas_lookup_num_entry),
         ensures
-            final(reader).data() == old(reader).data(),
+            /*@AUX*/ final(reader).data() == old(reader).data(),
             // Ok(cnt): fewer than 8 candidates, cnt is the exact number of cas lookup entries under the truncated hash, and
             // dest_indices[..cnt] holds the entry indices of all of them (distinct entries)
             /*@C09*/ ret matches Ok(cnt) ==> cnt < 8 && cnt == cl_count(*self, old(reader).data(), *cas_hash)
@@ -204,7 +204,7 @@ impl MDBShardInfo {
                                                    spec_truncate(*cas_hash), cnt as int, final(dest_indices)@),
             /*@C09*/ cl_count(*self, old(reader).data(), *cas_hash) >= 8 ==> ret is Err,
             /*@C09*/ ret is Err ==> final(reader).failed() || cl_count(*self, old(reader).data(), *cas_hash) >= 8,
-            old(reader).failed() ==> final(reader).failed(),
+            /*@AUX*/ old(reader).failed() ==> final(reader).failed(),
 //@ end
 
 //@ extract mdb_shard/src/shard_format.rs in `impl MDBShardInfo` fn get_file_reconstruction_info
@@ -214,7 +214,7 @@ impl MDBShardInfo {
         requires
             search_pre::<u32>(old(reader).data(), self.metadata.file_lookup_offset, self.metadata.file_lookup_num_entry),
         ensures
-            final(reader).data() == old(reader).data(),
+            /*@AUX*/ final(reader).data() == old(reader).data(),
             // Some(info): the full hash matches and info is the record of one of the lookup entries under the truncated hash
             /*@C09*/ ret matches Ok(Some(info)) ==> info.metadata.file_hash == *file_hash
                 && exists|i: int| 0 <= i < fl_n(*self) && #[trigger] fl_key(*self, old(reader).data(), i) == spec_truncate(*file_hash)
@@ -234,9 +234,11 @@ impl MDBShardInfo {
         proof { lemma_candidates::<R>(*self, d0, *file_hash, num_indices as int, dest_indices@); }
 //@ loop 1
             invariant
-                vx_tk1 <= vx_lim1, vx_lim1 == num_indices,
+                vx_tk1 <= vx_lim1,
+                /*@C09*/ vx_lim1 == num_indices,   // every candidate returned by the lookup is examined
                 reader.data() == d0, d0 == old(reader).data(),
-                num_indices < 8, num_indices == fl_count(*self, d0, *file_hash), dest_indices@.len() == 8,
+                /*@C09*/ num_indices < 8, num_indices == fl_count(*self, d0, *file_hash),
+                dest_indices@.len() == 8,
                 /*@C09*/ all_listed::<R>(*self, d0, *file_hash, num_indices as int, dest_indices@),
                 /*@C09*/ all_from_table::<R>(*self, d0, *file_hash, num_indices as int, dest_indices@),
                 /*@C09*/ forall|k: int| 0 <= k < vx_tk1 ==> spec_file_info(*self, d0, #[trigger] dest_indices@[k]).metadata.file_hash != *file_hash,
